@@ -167,7 +167,7 @@ def _valid_spec(spec):
 
 
 def _small_core(rng, tier, prop):
-    c = core.no_refusal(core.gen(rng, "quick", prop))
+    c = core.no_lists(core.no_refusal(core.gen(rng, "quick", prop)))
     # keep noise programs short
     for l in c:
         if l[0] == 1:
@@ -177,7 +177,7 @@ def _small_core(rng, tier, prop):
 
 def gen(rng, tier, prop):
     quick = tier == "quick"
-    main = core.no_refusal(core.gen(rng, "quick" if quick or rng.random() < 0.7 else "thorough", "C07"))
+    main = core.no_lists(core.no_refusal(core.gen(rng, "quick" if quick or rng.random() < 0.7 else "thorough", "C07")))
     main += _extras(rng, main, MAIN_KEYS, NOISE_KEYS)
     if rng.random() < (0.4 if quick else 0.5):
         start, end = main[0][1], main[0][2]
